@@ -109,6 +109,8 @@ def main():
             if props == ["all"]:
                 props = ALL
             res = run_checks(name, props)
+            if os.environ.get("VERIF_SEEDED_FRESH"):
+                meta["checks"] = {}  # a full re-evaluation on the current tree: nothing is carried over
             meta.setdefault("checks", {})
             for p_, r_ in res.items():
                 prev = meta["checks"].get(p_)
